@@ -148,7 +148,7 @@ const vStepTimeout = 20 * time.Second
 
 func vNewDMState() *vDMState {
 	g := vs.NewGates()
-	s := &vDMState{g: g, st: vs.NewStepper(), hosts: &vScriptedHostnames{g: g}, bus: pubsub.NewBus(), names: map[*manifest.Group]string{}}
+	s := &vDMState{g: g, st: vs.NewStepper(), hosts: &vScriptedHostnames{g: g}, bus: venv.QuietBus(pubsub.NewBus()), names: map[*manifest.Group]string{}}
 	s.run = &vDMRun{Accepted: map[string]int64{}}
 	m0 := s.newManifest()
 	owner := sdk.AccAddress([]byte("verif-tenant-0000000")).String()
@@ -406,12 +406,9 @@ func (s *vDMState) cleanup() {
 		}
 	}
 	vDMRouter.Unregister(s.dm)
-	// (a manager that has not ended keeps its bus: deploymentWithdrawal.run
-	// dereferences the subscriber it could not get from a closed bus, and a
-	// panic of a leaked goroutine would end every monitor of this process)
-	if s.done() {
-		s.bus.Close()
-	}
+	// (the bus is a venv.QuietBus: helper goroutines of the manager that get to
+	// subscribe after this point receive a dead subscriber instead of an error)
+	s.bus.Close()
 }
 
 // ---- oracle -----------------------------------------------------------------
